@@ -43,33 +43,37 @@ theorem planUn_ident (w : World) (hc : HCfg) (n : Nat) (t : Ty) (v : HVal) (view
   fun_induction planUn w hc n t v view
   case case1 => exact ⟨(planUnAny_ident h).1, .any (planUnAny_ident h).2⟩
   case case2 => cases h
-  case case3 => cases h
-  case case4 => cases h
+  case case3 hl => exact ⟨(planUnAny_ident h).1, .litEnum hl (planUnAny_ident h).2⟩
+  case case4 hl =>
+    cases h
+    exact ⟨rfl, .leafTy (by simpa [isLeafTy] using hl)⟩
   case case5 => cases h
-  case case6 hg =>
+  case case6 => cases h
+  case case7 => cases h
+  case case8 hg =>
     cases h
     exact ⟨rfl, .tupleHetBase (by simpa using hg)⟩
-  case case7 => cases h
-  case case8 => cases h
   case case9 => cases h
-  case case10 hv hg ih =>
+  case case10 => cases h
+  case case11 => cases h
+  case case12 hv hg ih =>
     exact ⟨(ih h).1, .optInner hg (fun he => hv he) (ih h).2⟩
-  case case11 hv hg =>
+  case case13 hv hg =>
     exact ⟨(planUnAny_ident h).1, .optBase (by simpa using hg) (fun he => hv he) (planUnAny_ident h).2⟩
-  case case12 hk ih => exact ⟨(ih h).1, .wrapInner hk (ih h).2⟩
-  case case13 hk =>
+  case case14 hk ih => exact ⟨(ih h).1, .wrapInner hk (ih h).2⟩
+  case case15 hk =>
     cases h
     exact ⟨rfl, .wrapBase (by simpa using hk)⟩
-  case case14 => exact absurd h (planClsUn_not_ident _ _ _ _ _)
-  case case15 => cases h
-  case case16 hg hid =>
+  case case16 => exact absurd h (planClsUn_not_ident _ _ _ _ _)
+  case case17 => cases h
+  case case18 hg hid =>
     cases h
     exact ⟨rfl, .tdIdentity (by simpa using hg) hid⟩
-  case case17 => cases h
-  case case18 => cases h
-  case case19 => exact ⟨(planUnAny_ident h).1, .union (planUnAny_ident h).2⟩
-  case case20 => exact ⟨(planNTUn_ident h).1, .ntPass (planNTUn_ident h).2⟩
-  case case21 t v view hany henum hcoll htup hmap _ hopt hwrap hcls htd hunion hnt =>
+  case case19 => cases h
+  case case20 => cases h
+  case case21 => exact ⟨(planUnAny_ident h).1, .union (planUnAny_ident h).2⟩
+  case case22 => exact ⟨(planNTUn_ident h).1, .ntPass (planNTUn_ident h).2⟩
+  case case23 t v view hany henum hlit hcoll htup hmap _ hopt hwrap hcls htd hunion hnt =>
     cases h
     refine ⟨rfl, ?_⟩
     cases t with
@@ -79,7 +83,7 @@ theorem planUn_ident (w : World) (hc : HCfg) (n : Nat) (t : Ty) (v : HVal) (view
     | str => exact .leafTy rfl
     | bytes => exact .leafTy rfl
     | bool => exact .leafTy rfl
-    | lit vs => exact .leafTy rfl
+    | lit vs => exact absurd rfl (hlit vs)
     | enum e => exact .mismatch (isEnumV_false (fun e' m he => henum e e' m rfl he))
     | coll k t => exact .mismatch (isCollC_false (fun ck xs he => hcoll k t ck xs rfl he))
     | tupleHet ts => exact .mismatch (isTupleC_false (fun xs he => htup ts xs rfl he))
